@@ -73,6 +73,9 @@ func FindDirectory(r io.ReaderAt, size int64) (int64, error) {
 // Read a zip from a ReaderAt, with a separate copy of the central directory
 func ReadWithDirectory(r io.ReaderAt, size int64, cd []byte) (*Directory, error) {
 	dirLoc := size - int64(len(cd))
+	if dirLoc < 0 {
+		return nil, errors.New("zip central directory is larger than the file")
+	}
 	files := make([]*File, 0)
 	for {
 		if len(cd) < 4 {
